@@ -2,6 +2,8 @@
 // Nothing here imports or shares code with rcproxy.
 package refmodel
 
+import "sync"
+
 // crc16 is CRC16/XMODEM (poly 0x1021, init 0, no reflection) computed bit by bit.
 func crc16(b []byte) uint16 {
 	var crc uint16
@@ -80,4 +82,25 @@ func TagForSlot(slot int) string { return slotTags[slot] }
 // KeyInSlot builds a key that the specification maps to slot and that contains token.
 func KeyInSlot(slot int, token string) string {
 	return "{" + slotTags[slot] + "}" + token
+}
+
+var (
+	wideTagsOnce sync.Once
+	wideTags     [16384]string
+)
+
+// WideTagForSlot returns a tag for slot that contains bytes >= 0x80 (UTF-8 text), without braces.
+func WideTagForSlot(slot int) string {
+	wideTagsOnce.Do(func() {
+		found := 0
+		for i := 0; found < 16384; i++ {
+			t := "\u00fc" + itoa36(i) + "\u4e2d"
+			s := int(crc16([]byte(t)) % 16384)
+			if wideTags[s] == "" {
+				wideTags[s] = t
+				found++
+			}
+		}
+	})
+	return wideTags[slot]
 }
